@@ -157,10 +157,13 @@ def ctx (s : State) :=
   unfold storeOne; dsimp only; repeat' split
   all_goals simp
 
+@[simp] theorem dropStack_ctx (s : State) (st) : ctx (dropStack s st) = ctx s :=
+  foldl_frame ctx disownPending (fun _ _ => rfl) st s
+
 @[simp] theorem storeObjects_ctx (fuel : Nat) (s : State) (st) :
     ctx (storeObjects fuel s st).1 = ctx s := by
   induction fuel generalizing s st with
-  | zero => cases st <;> rfl
+  | zero => cases st <;> simp [storeObjects]
   | succ n ih =>
     cases st with
     | nil => rfl
@@ -168,7 +171,7 @@ def ctx (s : State) :=
       simp only [storeObjects]
       split
       · rw [ih]; simp
-      · exact storeOne_ctx s i
+      · simp
 
 @[simp] theorem commitLoop_ctx (fuel : Nat) (s : State) (l) : ctx (commitLoop fuel s l).1 = ctx s := by
   induction l generalizing s with
@@ -181,32 +184,71 @@ def ctx (s : State) :=
 
 /-! ### `Str` through the pieces of `_store_objects` -/
 
+/-- `self._cache[oid] = obj` -/
+theorem Str.cacheSet {P Q s} (h : Str P s) (i k) (hi : (s.objs i).oid = some k)
+    (ha : s.added.get k = none) (hPQ : ∀ j ∈ P, j = i ∨ j ∈ Q) :
+    Str Q { s with cache := s.cache.set k i } := by
+  constructor
+  · intro k' j hj
+    simp only [Map.get_set] at hj
+    split at hj
+    · cases hj; subst_vars; exact hi
+    · exact h.cacheS k' j hj
+  · intro k' j hj
+    have := h.addedS k' j hj
+    simp only [Map.get_set]
+    refine ⟨this.1, ?_⟩
+    split
+    · subst_vars; rw [ha] at hj; cases hj
+    · exact this.2
+  · exact h.jarOid
+  · intro j k' hj
+    simp only [Map.get_set]
+    by_cases hkk : k' = k
+    · subst hkk
+      have := h.inj i j k' hi hj
+      subst this
+      left; simp
+    · rw [if_neg hkk]
+      rcases h.known j k' hj with h1 | h1 | h1
+      · exact Or.inl h1
+      · exact Or.inr (Or.inl h1)
+      · rcases hPQ j h1 with h2 | h2
+        · subst h2; rw [hi] at hj; cases hj; exact absurd rfl hkk
+        · exact Or.inr (Or.inr h2)
+  · exact h.fresh
+  · exact h.inj
+  · exact h.addedSorted
+
 theorem classify_str {P s} (h : Str P s) (i k) (hi : i ∈ P) (hk : (s.objs i).oid = some k) :
     Str P (classify s i k) := by
   unfold classify
   split
-  · constructor
-    · exact h.cacheS
-    · intro k' j hj
-      simp only [Map.get_del] at hj
-      split at hj
-      · cases hj
-      · exact h.addedS k' j hj
-    · exact h.jarOid
-    · intro j k' hj
-      simp only [Map.get_del]
-      rcases h.known j k' hj with h1 | h1 | h1
-      · exact Or.inl h1
-      · by_cases hkk : k' = k
-        · subst hkk
-          have := h.inj i j k' hk hj
-          subst this
-          exact Or.inr (Or.inr hi)
-        · rw [if_neg hkk]; exact Or.inr (Or.inl h1)
-      · exact Or.inr (Or.inr h1)
-    · exact h.fresh
-    · exact h.inj
-    · exact Map.del_sorted h.addedSorted k
+  · have h1 : Str P { s with added := s.added.del k } := by
+      constructor
+      · exact h.cacheS
+      · intro k' j hj
+        simp only [Map.get_del] at hj
+        split at hj
+        · cases hj
+        · exact h.addedS k' j hj
+      · exact h.jarOid
+      · intro j k' hj
+        simp only [Map.get_del]
+        rcases h.known j k' hj with h1 | h1 | h1
+        · exact Or.inl h1
+        · by_cases hkk : k' = k
+          · subst hkk
+            have := h.inj i j k' hk hj
+            subst this
+            exact Or.inr (Or.inr hi)
+          · rw [if_neg hkk]; exact Or.inr (Or.inl h1)
+        · exact Or.inr (Or.inr h1)
+      · exact h.fresh
+      · exact h.inj
+      · exact Map.del_sorted h.addedSorted k
+    have h2 := h1.cacheSet (Q := P) i k hk (by simp) (fun j hj => Or.inr hj)
+    exact h2.congr rfl rfl rfl rfl
   · exact h.congr rfl rfl rfl rfl
 
 theorem persistentId_str {P} (acc : State × List ObjId) (h : Str (P ++ acc.2) acc.1) (x : ObjId) :
@@ -270,47 +312,11 @@ theorem serialize_str {P s} (h : Str P s) (refs) :
   | nil => exact h0
   | cons x t ih => exact ih _ (persistentId_str acc h0 x)
 
-/-- `self._cache[oid] = obj` -/
-theorem Str.cacheSet {P Q s} (h : Str P s) (i k) (hi : (s.objs i).oid = some k)
-    (ha : s.added.get k = none) (hPQ : ∀ j ∈ P, j = i ∨ j ∈ Q) :
-    Str Q { s with cache := s.cache.set k i } := by
-  constructor
-  · intro k' j hj
-    simp only [Map.get_set] at hj
-    split at hj
-    · cases hj; subst_vars; exact hi
-    · exact h.cacheS k' j hj
-  · intro k' j hj
-    have := h.addedS k' j hj
-    simp only [Map.get_set]
-    refine ⟨this.1, ?_⟩
-    split
-    · subst_vars; rw [ha] at hj; cases hj
-    · exact this.2
-  · exact h.jarOid
-  · intro j k' hj
-    simp only [Map.get_set]
-    by_cases hkk : k' = k
-    · subst hkk
-      have := h.inj i j k' hi hj
-      subst this
-      left; simp
-    · rw [if_neg hkk]
-      rcases h.known j k' hj with h1 | h1 | h1
-      · exact Or.inl h1
-      · exact Or.inr (Or.inl h1)
-      · rcases hPQ j h1 with h2 | h2
-        · subst h2; rw [hi] at hj; cases hj; exact absurd rfl hkk
-        · exact Or.inr (Or.inr h2)
-  · exact h.fresh
-  · exact h.inj
-  · exact h.addedSorted
-
 
 /-! ### field-by-field description of the pieces of `storeOne` -/
 
 /-- fields that neither `access`, nor `serialize`, nor `storeRec` touch -/
-def books (s : State) := (s.added, s.creating, s.modified, s.d1)
+def books (s : State) := (s.added, s.creating, s.modified)
 
 @[simp] theorem access_books (s : State) (i) : books (access s i).1 = books s := by
   unfold access; dsimp only; repeat' split
@@ -329,7 +335,7 @@ def books (s : State) := (s.added, s.creating, s.modified, s.d1)
   all_goals first | rfl | exact storageStore_books s k r
 
 /-- fields that `classify`, `access` and `serialize` do not touch but `storeRec` does -/
-def stores (s : State) := (s.cache, s.sp, s.staged, s.nstores)
+def stores (s : State) := (s.sp, s.staged, s.nstores)
 
 @[simp] theorem classify_stores (s : State) (i k) : stores (classify s i k) = stores s := by
   unfold classify; split <;> rfl
@@ -345,16 +351,27 @@ def stores (s : State) := (s.cache, s.sp, s.staged, s.nstores)
 @[simp] theorem classify_objs (s : State) (i k) : (classify s i k).objs = s.objs := by
   unfold classify; split <;> rfl
 
-@[simp] theorem classify_cache (s : State) (i k) : (classify s i k).cache = s.cache := by
-  unfold classify; split <;> rfl
+theorem classify_cache (s : State) (i k k') :
+    (classify s i k).cache.get k' =
+      if isNewObj s (s.objs i) k = true ∧ k' = k then some i else s.cache.get k' := by
+  unfold classify
+  split
+  · rename_i h
+    simp only [Map.get_set, h, true_and]
+  · rename_i h; simp [h]
+
+@[simp] theorem access_cache (s : State) (i) : (access s i).1.cache = s.cache := by
+  unfold access; dsimp only; repeat' split
+  all_goals rfl
+
+@[simp] theorem serialize_cache (s : State) (refs) : (serialize s refs).1.cache = s.cache := by
+  have := (serialize_ok s refs).frame
+  rw [this]
 
 @[simp] theorem classify_sp (s : State) (i k) : (classify s i k).sp = s.sp := by
   unfold classify; split <;> rfl
 
 @[simp] theorem classify_staged (s : State) (i k) : (classify s i k).staged = s.staged := by
-  unfold classify; split <;> rfl
-
-@[simp] theorem classify_d1 (s : State) (i k) : (classify s i k).d1 = s.d1 := by
   unfold classify; split <;> rfl
 
 @[simp] theorem classify_nextOid (s : State) (i k) : (classify s i k).nextOid = s.nextOid := by
@@ -457,10 +474,10 @@ def tmpCr (s : State) : Option (Map Bool) := s.sp.map (·.creating)
   unfold tmpCr; simp
 
 @[simp] theorem access_tmpCr (s : State) (i) : tmpCr (access s i).1 = tmpCr s := by
-  have := access_stores s i; simp only [stores, Prod.mk.injEq] at this; unfold tmpCr; rw [this.2.1]
+  have := access_stores s i; simp only [stores, Prod.mk.injEq] at this; unfold tmpCr; rw [this.1]
 
 @[simp] theorem serialize_tmpCr (s : State) (refs) : tmpCr (serialize s refs).1 = tmpCr s := by
-  have := serialize_stores s refs; simp only [stores, Prod.mk.injEq] at this; unfold tmpCr; rw [this.2.1]
+  have := serialize_stores s refs; simp only [stores, Prod.mk.injEq] at this; unfold tmpCr; rw [this.1]
 
 @[simp] theorem storeRec_tmpCr (s : State) (i k r) : tmpCr (storeRec s i k r).1 = tmpCr s := by
   unfold storeRec tmpCr; dsimp only
